@@ -1394,22 +1394,43 @@ def define_once(ctx, res):
             return "class"
         return None
 
+    _defs = {}
+    for a_ in ast.walk(fn):
+        if isinstance(a_, ast.Assign) and len(a_.targets) == 1 \
+                and isinstance(a_.targets[0], ast.Name):
+            _defs.setdefault(a_.targets[0].id, []).append(a_.value)
+    flags = {k: v[0] for k, v in _defs.items()
+             if len(v) == 1 and isinstance(v[0], ast.Compare)}
+
+    # the key: the name parameter or a local derived from it
+    # (`prefix = name[:-1]`)
+    keys = {namep}
+    for _ in range(3):
+        for k_, vs in _defs.items():
+            if any(any(isinstance(n_, ast.Name) and n_.id in keys
+                       for n_ in ast.walk(v_)) for v_ in vs) \
+                    and not any(isinstance(v_, ast.Compare) for v_ in vs):
+                keys.add(k_)
+
     def absent_test(a, lab):
-        """(table, present?) for a membership test of the name"""
+        """(table, key, present?) for a membership test of the name"""
+        if isinstance(a, ast.Name) and a.id in flags:
+            a = flags[a.id]         # `exists = name in table; if exists:`
         if isinstance(a, ast.Compare) and len(a.ops) == 1:
             op, l, r = a.ops[0], a.left, a.comparators[0]
-            if isinstance(op, (ast.In, ast.NotIn)) and norm(l) == namep:
+            if isinstance(op, (ast.In, ast.NotIn)) and norm(l) in keys:
                 tb = table_of(r)
                 if tb:
-                    return tb, isinstance(op, ast.In) == (lab == "T")
+                    return tb, norm(l), isinstance(op, ast.In) == (lab == "T")
             if isinstance(op, (ast.Is, ast.IsNot)) and norm(r) == "None" \
                     and isinstance(l, ast.Call) \
                     and isinstance(l.func, ast.Attribute) \
                     and l.func.attr == "get" and l.args \
-                    and norm(l.args[0]) == namep:
+                    and norm(l.args[0]) in keys:
                 tb = table_of(l.func.value)
                 if tb:
-                    return tb, isinstance(op, ast.IsNot) == (lab == "T")
+                    return tb, norm(l.args[0]), \
+                        isinstance(op, ast.IsNot) == (lab == "T")
         return None
 
     stores = {}
@@ -1423,20 +1444,22 @@ def define_once(ctx, res):
             if nd.kind == "cond":
                 r = absent_test(a, lab)
                 if r:
-                    known[r[0]] = r[1]
+                    known[(r[0], r[1])] = r[2]
                 continue
             if isinstance(a, ast.Assign):
                 for t in a.targets:
-                    if isinstance(t, ast.Name) and t.id == namep:
+                    if isinstance(t, ast.Name) and t.id in keys:
                         # `name = name[:-1]`: tests so far were about the
                         # old spelling
-                        known = {}
-                    if isinstance(t, ast.Subscript) and norm(t.slice) == namep:
+                        known = {k: v for k, v in known.items()
+                                 if k[1] != t.id}
+                    if isinstance(t, ast.Subscript) \
+                            and norm(t.slice) in keys:
                         tb = table_of(t.value)
                         if tb:
                             st = stores.setdefault(
                                 (tb, norm(t), a.lineno), set())
-                            st.add(known.get(tb))
+                            st.add(known.get((tb, norm(t.slice))))
     if not stores:
         raise AnalysisError("_add_class_trait: no class-table store found")
     for (tb, text, ln), outcomes in sorted(stores.items()):
